@@ -382,10 +382,21 @@ def check_one(pid, tier):
                 rid = region_id(rg)
                 if rid not in [o["id"] for o in obligations if o["unit"] == r["unit"]]:
                     obligations.append({"unit": r["unit"], "id": rid, "kind": rg["kind"]})
+        closure_items = set(mp.get("unspecified_closures", []))
         for rid, fl in failing_rids.items():
             if rid == "spec:canary":
                 continue
             rg = fl[0]["region"]
+            it = rid.split("@")[1] if "@" in rid else rid.split("#")[0]
+            if it in closure_items:
+                # a closure without a contract: the verifier knows nothing about its result, so a failed obligation in this
+                # function says nothing about the property (tool limit, not an alarm)
+                fpr = set()
+                for f in fl:
+                    fpr |= set(f["props"])
+                if pid in fpr or ("~" + pid) in fpr:
+                    undec_reasons.append("%s: %s contains a closure without contract; obligation %s cannot be decided" % (r["unit"], it, rid))
+                continue
             fprops = set()
             for f in fl:
                 fprops |= set(f["props"])
